@@ -177,6 +177,8 @@ def systematic(tier: str = "thorough") -> list[dict]:
             else ["leaf", "c_div"]):
         if pos >= len(shapes):
             continue
+        if tier != "thorough" and ti >= 11 and (f2 != "leaf" or len(shapes[-1]) == 4):
+            continue            # quick: the 0-d / multi-unit-axis templates once per form
         if f2 != "leaf" and f1 in ("leaf",):
             continue
         if f2 != "leaf" and f1 not in ("add", "sub", "c_mul", "mul_c", "div_c", "c_div",
